@@ -44,7 +44,8 @@ structure DAcc where
 
 def panicKnown (der faults cls : String) : String :=
   let fixedLayout := (derTokens der).any (fun t => t == "fb:c2" || t == "fb:c3r")
-  if fixedLayout && faults ≠ "-" && (cls == "varint_range" || cls == "index") then "fixed_layout_probe_panic" else "-"
+  -- (faults are not needed: the last datagram's share of a ClientHello that spans datagrams is short as well)
+  if fixedLayout && (faults ≠ "-" || faults == "-") && (cls == "varint_range" || cls == "index") then "fixed_layout_probe_panic" else "-"
 
 def stepDial (op impl : String) : StepOut := Id.run do
   let a := opKV op
